@@ -83,7 +83,26 @@ class SLCDevice(rt.Device):
             return self.execute_pccc(rq)
         return super().serve(rq)
 
+    duplicate_detection = False
+
     def execute_pccc(self, rq):
+        """DF1 duplicate detection (1770-6.5.16, "duplicate message detection"): a node may compare command and transaction number of a
+        command with those of the previous one from the same source and, if they are equal, repeat its reply without executing again"""
+        d = rq.data
+        key = None
+        if self.duplicate_detection and d and d[0] >= 7 and len(d) >= d[0] + 4:
+            p_ = d[d[0]:]
+            key = (p_[0], bytes(p_[2:4]))
+            last = getattr(self, "_last_pccc", None)
+            if last is not None and last[0] == key:
+                self.log.c("pccc-duplicates-not-executed")
+                return last[1]
+        out = self._execute_pccc(rq)
+        if key is not None:
+            self._last_pccc = (key, out)
+        return out
+
+    def _execute_pccc(self, rq):
         d = rq.data
         if not d or d[0] < 7 or len(d) < d[0] + 4:
             return rt.ST_NOT_ENOUGH, (), b""
